@@ -144,7 +144,7 @@ Vol2(c) == Area2(c) * Depth(c)
 RECURSIVE SumVol2(_)
 SumVol2(S) == IF S = {} THEN 0 ELSE LET c == CHOOSE y \in S : TRUE IN Vol2(c) + SumVol2(S \ {c})
 TotalVol2 == SumVol2(ColIds)
-Conserving == last'.op \in {"refine", "decompose_columns", "split_column", "refine_layers", "rename_column", "translate",
+Conserving == last'.op \in {"refine", "decompose_columns", "split_column", "refine_layers", "rename_column", "rename_columns", "translate",
                             "rotate90", "connect", "check"}
 (* every new column lies inside an old column with the same surface; the pieces of an old column add up to it *)
 Pieces(old) == {c \in ColIds' : \A n \in Range(ById(cols', c).nodes) :
@@ -229,6 +229,20 @@ RenameColumn(old, new) ==
                           connDict[CHOOSE x \in DOMAIN connDict : <<Ren(x[1]), Ren(x[2])>> = k]]
     /\ UNCHANGED <<nodes, nodeDict, conns, layers, nodeCols, colConns, colNbrs>>
     /\ last' = Act("rename_column", <<old, new>>)
+    /\ bnames' = ExpectedBlockNames'
+
+(* rename_column with lists: several columns renamed in one call (old names distinct, new names fresh and distinct) *)
+RenameColumns(olds, news) ==
+    /\ Len(olds) = Len(news) /\ Len(olds) > 0
+    /\ \A i \in DOMAIN olds : olds[i] \in DOMAIN colDict /\ news[i] \notin DOMAIN colDict
+    /\ \A i, j \in DOMAIN olds : i # j => olds[i] # olds[j] /\ news[i] # news[j]
+    /\ LET Ren(n) == IF \E i \in DOMAIN olds : olds[i] = n THEN news[CHOOSE i \in DOMAIN olds : olds[i] = n] ELSE n IN
+       /\ cols' = [i \in DOMAIN cols |-> [cols[i] EXCEPT !.name = Ren(cols[i].name)]]
+       /\ colDict' = [n \in {Ren(x) : x \in DOMAIN colDict} |-> colDict[CHOOSE x \in DOMAIN colDict : Ren(x) = n]]
+       /\ connDict' = [k \in {<<Ren(x[1]), Ren(x[2])>> : x \in DOMAIN connDict} |->
+                          connDict[CHOOSE x \in DOMAIN connDict : <<Ren(x[1]), Ren(x[2])>> = k]]
+    /\ UNCHANGED <<nodes, nodeDict, conns, layers, nodeCols, colConns, colNbrs>>
+    /\ last' = Act("rename_columns", <<olds, news>>)
     /\ bnames' = ExpectedBlockNames'
 
 DeleteColumn(name) ==
